@@ -1140,11 +1140,10 @@ function IntegralType:wrap_value(value)
   if traits.is_integral(value) then
     -- wrap around in case the value is not in range
     if not self:is_inrange(value) then
+      -- two's complement reduction, for values any number of wraps away
+      value = bn.bwrap(value, self.bitsize)
       if self.is_signed and value > self.max then
-        -- special case for wrapping signed integers
-        value = -bn.bwrap(-value, self.bitsize)
-      else
-        value = bn.bwrap(value, self.bitsize)
+        value = value - (bn.one() << self.bitsize)
       end
     end
   else -- must be a float
